@@ -205,7 +205,8 @@ func cmdCheck(args []string) int {
 		if c.Trusted {
 			continue
 		}
-		if hasProp(c.Props, *prop) || clauseHasProp(c, *prop) {
+		if hasProp(c.Props, *prop) || clauseHasProp(c, *prop) || *prop == "C10" {
+			// C10 (no panics) is decided by the automatic safety obligations of every function under contract
 			keys = append(keys, k)
 		}
 	}
